@@ -265,3 +265,37 @@ Proof.
        Datatypes.app Datatypes.length List.rev Nat.eqb FUEL_SEM fst snd].
   rewrite T. reflexivity.
 Qed.
+
+(* Splice: Drain::fill writes into the gap [vec.len, tail_start) starting at buffer + vec.len;
+   Drain::move_tail reserves (tail_start + tail_len, extra), then moves the tail_len tail elements
+   from tail_start up to tail_start + extra — VecModel.sp_fill / sp_move_tail *)
+Lemma src_vec_splice_ok base len tail_start tail_len extra it :
+  len <= tail_start -> base + tail_start + extra < W -> tail_start + tail_len < W ->
+  let en := vdrain base len tail_start tail_len in
+  call_fn src_fns en "vec_splice_fill_start" [it] = Ret (VN len) /\
+  call_fn src_fns en "vec_splice_fill_end" [it] = Ret (VN tail_start) /\
+  call_fn src_fns en "vec_splice_fill_at" [it] = Ret (VN (base + len)) /\
+  call_fn src_fns en "vec_splice_fill_gap" [it] = Ret (VN (tail_start - len)) /\
+  call_fn src_fns en "vec_splice_used_capacity" [VN extra] = Ret (VN (tail_start + tail_len)) /\
+  call_fn src_fns en "vec_splice_reserve_extra" [VN extra] = Ret (VN extra) /\
+  call_fn src_fns en "vec_splice_new_tail_start" [VN extra] = Ret (VN (tail_start + extra)) /\
+  call_fn src_fns en "vec_splice_move_src" [VN extra] = Ret (VN (base + tail_start)) /\
+  call_fn src_fns en "vec_splice_move_dst" [VN extra] = Ret (VN (base + (tail_start + extra))) /\
+  call_fn src_fns en "vec_splice_move_len" [VN extra] = Ret (VN tail_len).
+Proof.
+  intros H0 H1 H2 en. subst en.
+  assert (T1 : (base + len <? W) = true) by (apply N.ltb_lt; lia).
+  assert (T2 : (len <=? tail_start) = true) by (apply N.leb_le; exact H0).
+  assert (T3 : (tail_start + tail_len <? W) = true) by (apply N.ltb_lt; exact H2).
+  assert (T4 : (tail_start + extra <? W) = true) by (apply N.ltb_lt; lia).
+  assert (T5 : (base + tail_start <? W) = true) by (apply N.ltb_lt; lia).
+  assert (T6 : (base + (tail_start + extra) <? W) = true) by (apply N.ltb_lt; lia).
+  repeat match goal with |- _ /\ _ => split end; unfold call_fn;
+    cbv beta iota zeta delta
+      [call_fn eval lookup bind finish meth0 meth1 arith fn_params fn_body src_fns vdrain
+       String.eqb Ascii.eqb Bool.eqb List.app List.combine List.length
+       Datatypes.app Datatypes.length List.rev Nat.eqb FUEL_SEM fst snd];
+    rewrite ?T1, ?T2, ?T3, ?T4, ?T5;
+    cbv beta iota zeta delta [bind meth1 lookup String.eqb Ascii.eqb Bool.eqb];
+    rewrite ?T6; reflexivity.
+Qed.
